@@ -25,7 +25,7 @@ def gen_case(rng, ctx):
     gen.OUTLIER["n_only_up_to"] = 9      # the exact oracle limits the number of elements; rankings are not limited
     thorough = ctx.tier == "thorough"
     nmax = (9 if rng.random() < 0.2 else 7) if thorough else (7 if rng.random() < 0.4 else 6)
-    cls, ds = gen.dataset(rng, classes="D11 D11 D11 D10 D10 D8 D8 D9 D3 D2 D7", nmax=nmax, mmax=6)
+    cls, ds = gen.dataset(rng, classes="D11 D11 D11 D10 D10 D8 D8 D9 D3 D2 D2 D7 D15", nmax=nmax, mmax=6)
     ds = libx.normalise_raw(ds)
     scls, sch = gen.scheme(rng, "S1 S1 S2 S3 S3 S3 S6 S9 S11 S11")
     # (partition, consensus) pair for consistent_with
